@@ -452,13 +452,20 @@ def explore_case(
                 executed.add("%s:%s" % (fn.split("/numpoly/", 1)[1], frame.f_code.co_name))
 
     valuations = [{a: Fraction(frng.choice([-3, -2, -1, 0, 0, 1, 1, 2, 3, 5])) for a in atoms} for _ in range(2)] + witnesses
+    # self-contained native cases (special values, bulk sizes: no operand specs, nothing symbolic): one native run is all there is
+    standalone = bool(case.get("native_only")) or "special" in (str(case.get("op", "")) + str(case.get("fn", "")) + str(case.get("mode", "")))
+    if standalone:
+        valuations = valuations[:1]
     native_hx: List[str] = []
     n_wide = len(valuations)
-    valuations = valuations + [valuations[0]]  # once more as int32 (a coefficient type outside the compiled kernels)
+    if not standalone:
+        valuations = valuations + [valuations[0]]  # once more as int32 (a coefficient type outside the compiled kernels)
+    global NATIVE_RUN_INDEX
     for _k, vals in enumerate(valuations):
+        NATIVE_RUN_INDEX = _k
         try:
-            if _k == 0:
-                sys.setprofile(_prof)  # measured list of numpoly functions this case executes
+            if _k == 0 and not case.get("native_only") and "special" not in (str(case.get("op", "")) + str(case.get("fn", "")) + str(case.get("mode", ""))):
+                sys.setprofile(_prof)  # measured list of numpoly functions this case executes (not for the bulk-size native cases)
             try:
                 rep = concrete_run_poisoned(body, case, vals, options, narrow=_k >= n_wide)
             finally:
@@ -482,9 +489,10 @@ def explore_case(
             if _k >= n_wide:
                 rec["env"] = "int32"
             confirmed.append(rec)
+    NATIVE_RUN_INDEX = 1  # (the passes below repeat runs: value-independent blocks need not run again)
     # state kept between calls: repeat the first native run after overwriting everything the first pass handed out
     try:
-        for r in scribble_rerun(body, case, valuations[0], options):
+        for r in ([] if standalone else scribble_rerun(body, case, valuations[0], options)):
             sig = r.signature()
             if seen_sig.get(sig):
                 continue
@@ -516,6 +524,7 @@ def explore_case(
             fidelity += 1
     except Exception:
         pass
+    NATIVE_RUN_INDEX = 0
     d = {k: ENGINE.stats[k] - q0.get(k, 0) for k in ENGINE.stats}
     return {
         "case": case,
@@ -550,6 +559,10 @@ def _matching(rep: List[Issue], iss: Issue) -> List[Issue]:
         or (iss.kind == "uninitialised" and r.kind in ("value", "exception"))
         or (iss.kind == "value" and r.kind in ("shape", "malformed"))
     ]
+
+
+# index of the native run of the current case (0 = first / a replay): bodies may confine value-independent native blocks to run 0
+NATIVE_RUN_INDEX = 0
 
 
 def scribble(objs, accessors_only: bool = False) -> int:
@@ -594,6 +607,8 @@ def scribble(objs, accessors_only: bool = False) -> int:
                 except Exception:
                     pass
             try:
+                if len(o.keys) > 200:
+                    raise ValueError("bulk-size polynomial: the helper functions are quadratic in the number of terms")
                 ex = o.exponents
                 for g in (False, True):
                     for r in (False, True):
